@@ -5,6 +5,7 @@ package main
 // of the printer, and one BOUNDED stand-in for buffer.AddComment.
 
 import (
+	"go/constant"
 	"fmt"
 	"go/types"
 	"os"
@@ -136,6 +137,39 @@ func c05Extra(pc *propCheck) {
 	}
 	sort.Strings(bad)
 	add("scan", "internal/coq/scan[comment text reaches the output only through buffer.AddComment]", len(bad) == 0 && nSites > 0, fmt.Sprintf("%d reads of Comment/GoCall fields; other uses: %v", nSites, bad))
+	// scan 1b: Coq comment delimiters are only written by AddComment (which sanitises the text between
+	// them; the file header goes through it too): any other string constant with "(*" or "*)" in the
+	// translator packages is a place where a comment is emitted around text that nobody escaped
+	var delims []string
+	nDelim := 0
+	allowedDelim := map[string]bool{
+		"(*github.com/goose-lang/goose/internal/coq.buffer).AddComment": true, // the sanitiser itself
+	}
+	for name, fn := range pc.P.fns {
+		if !inTranslator(pc.P, fn) || len(fn.Blocks) == 0 || strings.HasSuffix(fn.Prog.Fset.Position(fn.Pos()).Filename, "_test.go") {
+			continue
+		}
+		for _, b := range fn.Blocks {
+			for _, ins := range b.Instrs {
+				for _, op := range ins.Operands(nil) {
+					c, ok := (*op).(*ssa.Const)
+					if !ok || c.Value == nil || c.Value.Kind() != constant.String {
+						continue
+					}
+					sv := constant.StringVal(c.Value)
+					if !strings.Contains(sv, "(*") && !strings.Contains(sv, "*)") {
+						continue
+					}
+					nDelim++
+					if !allowedDelim[name] {
+						delims = append(delims, fmt.Sprintf("%s: %q", name, sv))
+					}
+				}
+			}
+		}
+	}
+	sort.Strings(delims)
+	add("scan", "translator/scan[Coq comment delimiters are written only by buffer.AddComment]", len(delims) == 0 && nDelim > 0, fmt.Sprintf("%d string constants with a comment delimiter; outside the allowed functions: %v", nDelim, delims))
 	// scan 2: AddTypes only guards a trailing block (the definition body does not depend on -typecheck)
 	for _, fname := range []string{"(github.com/goose-lang/goose/internal/coq.FuncDecl).CoqDecl", "(github.com/goose-lang/goose/internal/coq.ConstDecl).CoqDecl"} {
 		fn := pc.P.fns[fname]
